@@ -93,6 +93,7 @@ type cbox struct {
 	faultsInjected int
 	notified  map[string][4]int64 // pool -> counters read at the moment of its last change notification
 	gainedLater map[string]bool // services whose second address came from the additional-family step
+	afterFailedLoad func() // applied once, when a reload of all services ended with "retry"
 	lastFailed string // service whose status write failed last (cleared by its next successful write)
 	writes    []boxWrite
 	memLog    []boxWrite // every change of a service's addresses in the allocator memory
@@ -195,6 +196,12 @@ func (cb *cbox) boot(k *boxKernel) {
 	k.OnDone = func(rec string, req ctrl.Request, err error) {
 		if rec == "svc" && req == boxReloadReq && err == nil {
 			cb.fullSyncs++
+		}
+		if rec == "svc" && req == boxReloadReq && err != nil && cb.afterFailedLoad != nil {
+			// hostile timing: right between a load that has to be retried and its retry
+			f := cb.afterFailedLoad
+			cb.afterFailedLoad = nil
+			f()
 		}
 	}
 	logger := log.NewNopLogger()
